@@ -515,7 +515,6 @@ Definition do_ev (e : ev) (s : state) : state :=
     end
   | EvStart c => match pc s with PIdle => start c s | _ => s end
   | EvUpdate u =>
-    if quitf s then s else
     match pend s, pc s with
     | Some _, _ => s
     | None, PIdle => s
@@ -535,11 +534,10 @@ Definition do_ev (e : ev) (s : state) : state :=
     end
   | EvCurrent b => set_iscur b s
   | EvQuit =>
-    match pend s, pc s with
-    | Some _, _ => s
-    | None, PSelect => set_pc PExit (set_quitf true s)
-    | None, PWait _ => set_pc PExit (set_quitf true s)
-    | None, _ => set_quitf true s
+    match pc s with
+    | PSelect => set_pc PExit (set_quitf true s)
+    | PWait _ => set_pc PExit (set_quitf true s)
+    | _ => set_quitf true s
     end
   end.
 
